@@ -14,11 +14,11 @@ open Lean StubGen StubGen.Driver
 def handle (j : Json) : Json :=
   match getStr j "op" with
   | "convert" =>
-    Json.mkObj [("out", .str (convertName (getStr j "name") (getBool j "safe") (getBool j "cls")))]
+    Json.mkObj [("out", .str (convertAny (getStr j "name") (getBool j "safe") (getBool j "cls")))]
   | "convert_batch" =>
     let safe := getBool j "safe"
     Json.mkObj [("out", .arr ((getStrs j "names").map fun n =>
-      Json.arr #[.str (convertName n safe false), .str (convertName n safe true), .str (escapeKeyword n),
+      Json.arr #[.str (convertAny n safe false), .str (convertAny n safe true), .str (escapeKeyword n),
                  .bool (isInternal n), .bool (Convertible n.toList), .bool (isIdent n.toList)]).toArray)]
   | "escape" => Json.mkObj [("out", .str (escapeKeyword (getStr j "name")))]
   | "internal" => Json.mkObj [("out", .bool (isInternal (getStr j "name")))]
